@@ -361,6 +361,17 @@ pub fn c30_setup_case(src: &mut Src, obs: &mut Obs) -> CaseResult {
         k > delay
     });
     let mut peer = Peer::new(sh, false);
+    // other traffic arriving just before the call: nothing, a few signals, or more messages than a
+    // queue of the connection holds (64 by default)
+    let burst = match src.weighted(&[5, 2, 3]) {
+        0 => 0,
+        1 => 1 + src.below(5),
+        _ => 60 + src.below(30),
+    };
+    for i in 0..burst {
+        let m = peer.signal("/c30s", "c30.Noise", "Tick", None, vec![RVal::U(i as u32)]);
+        peer.send(&m);
+    }
     let call = peer.call("/c30s", Some("c30.Leaf"), "Id", vec![]);
     peer.send(&call);
     let oc = sched.run(&mut || sch.next(), 300_000, &mut |_| {
@@ -368,14 +379,17 @@ pub fn c30_setup_case(src: &mut Src, obs: &mut Obs) -> CaseResult {
         peer.out.iter().any(|r| r.get(msg::F_REPLY_SERIAL) == Some(&RVal::U(call.serial)))
     });
     if oc != Outcome::Goal {
-        let key = if !pre_existing { Some("objsrv-call-right-after-on-demand-creation-lost".to_string()) } else { None };
-        return Err(Failure { key, msg: format!("a method call that arrived {delay} scheduler step(s) after at() had returned was never answered ({oc:?}); object server existed before: {pre_existing}") });
+        let key = if !pre_existing && burst == 0 { Some("objsrv-call-right-after-on-demand-creation-lost".to_string()) } else { None };
+        return Err(Failure { key, msg: format!("a method call that arrived {delay} scheduler step(s) after at() had returned, behind {burst} signal(s), was never answered ({oc:?}); object server existed before: {pre_existing}") });
     }
     let r = peer.out.iter().find(|r| r.get(msg::F_REPLY_SERIAL) == Some(&RVal::U(call.serial))).unwrap();
     if r.mtype != msg::T_RETURN || r.body.first() != Some(&RVal::U(9)) {
         return Err(Failure::new(format!("the call was answered with {r:?}")));
     }
     obs.label(if pre_existing { "server-existed" } else { "server-created-on-demand" });
+    if burst > 64 {
+        obs.label(if pre_existing { "call-behind-more-than-64-signals" } else { "on-demand:call-behind-more-than-64-signals" });
+    }
     if !pre_existing && delay <= 3 {
         obs.nontrivial(fnv(format!("{delay}{}", sched.steps).as_bytes()));
         obs.sample("on-demand", || format!("object server created on demand, call arrives {delay} step(s) after at() returned: answered"));
